@@ -6,6 +6,8 @@ CONSTANTS
     Loop = "copy"
     Family = "slowaccum"
     Tier = "quick"
+    NanRule = "notconverged"
+    FluxRule = "segment"
     Reporter = "contract"
     EmitOn = FALSE
 INIT Init
